@@ -33,13 +33,15 @@ from bounded.cases import _router_common as RC
 
 R, W = RC.R, RC.W
 
-BOUND = ('6 universes (literal split/merge nodes; wildcard siblings with a filter-clashing rule; hook-only prefixes; two '
-         'names over three rules; root + path filter; in-segment wildcards + int) of 3-4 route rules, 2-3 hook rules incl. '
-         'prefix-only and mid-segment ones, 0-2 names, 1-2 removal prefixes, alphabets of 12-16 operations {add, add '
-         'overwrite, refused add (dup / name / filter), remove(rule), remove(name), remove(prefix*), add hook, remove hook}: '
-         'ALL histories of length <= 4 (thorough <= 5) explored with merging on (real tree + indexes, model) state, every '
-         'reached state checked on 25-45 probe paths x {GET,POST}; plus 120 (thorough 2500) seeded random walks of length 40 '
-         'over the 8-rule / 3-hook / 2-name universe of DESIGN.md, checked after every step')
+BOUND = ('5 universes (quick; thorough adds a 6th): literal split/merge nodes /ab,/abc,/abd; wildcard siblings /a/:x,/a/:x/b,/a/b '
+         'with the filter-clashing /a/<n:int>; hook-only prefixes /h,/q/r,/ over /h/a,/h/b,/h/a/c; two names over three '
+         'rules; root + path filter; (in-segment wildcards + int) - each 3-4 route rules, 1-4 hook rules incl. prefix-only, '
+         'mid-segment and root ones, 0-2 names, 1-2 removal prefixes, alphabets of 14-17 operations {add, add overwrite, '
+         'refused add (dup / name / filter), remove(rule), remove(name), remove(prefix*), add hook, replace hook, remove '
+         'hook}: ALL histories of length <= 4 (thorough <= 5) explored breadth first with merging on (real tree + indexes, '
+         'model) state, every reached state checked on <= 40 probe paths x {GET,POST} + lookups + hooks fired through '
+         '__call__; plus 80 (thorough 2500) seeded random walks of length 40 over the 8-rule / 3-hook / 2-name / 3-prefix '
+         'universe of DESIGN.md, checked after every step, restarting after a failure')
 NONTRIVIAL_RULE = 'distinct (universe, prefix, depth) or walk; every case replays at least one edit and checks >= 1 state'
 
 
@@ -206,17 +208,16 @@ class Model:
             rule = self.rules[op[1]] if kind == 'add' else self.hrules[op[1]]
             if any(S.filter_conflict(rule, q) for q in self._live()):
                 return 'refuse', 'filter'
-            if any(S.filter_conflict(rule, self.hrules[h]) for h in self.unspec):
-                return 'either', 'filter-vs-unspecified-hook'
+            maybe = any(S.filter_conflict(rule, self.hrules[h]) for h in self.unspec)
             if kind == 'hook':
-                return 'accept', ''
+                return ('either', 'filter-vs-unspecified-hook') if maybe else ('accept', '')
             _, ri, m, _hid, ow, name = op
             cur = self.routes.get(self.rkeys[ri])
             if cur and m in cur[1] and not ow:
                 return 'refuse', 'dup'
             if name and not ow and name in self.names and self.names[name] != self.rkeys[ri]:
                 return 'refuse', 'name'
-            return 'accept', ''
+            return ('either', 'filter-vs-unspecified-hook') if maybe else ('accept', '')
         if kind == 'rm':
             return ('accept', '') if self.rkeys[op[1]] in self.routes else ('noop', '')
         if kind == 'rmname':
@@ -614,9 +615,22 @@ def _run_walk(world, case):
             f = check_state(world, app, model)
             n += 1
         if f:
-            failures.append((list(seg), f[0], f[1]))
+            failures.append(_shrink(world, list(seg), f))
             app, model, seg = ombott.Ombott(), Model(case), []
     return _pick(case, failures, n)
+
+
+def _shrink(world, seq, f):
+    """Greedy one-op deletion keeping the last op and the failing clause (deterministic; only shortens the report)."""
+    clause = f[0]
+    i = len(seq) - 2
+    while i >= 0 and len(seq) > 1:
+        cand = seq[:i] + seq[i + 1:]
+        _app, _model, g = _replay(world, cand)
+        if g and g[0] == clause:
+            seq, f = cand, g
+        i -= 1
+    return seq, f[0], f[1]
 
 
 # ----------------------------------------------------------------------------- triage of known defect classes
